@@ -1240,7 +1240,7 @@ pub fn registry() -> Vec<Profile> {
             title: "timestamps",
             run: run_c16,
             required: &["date_must_accept", "date_must_reject", "date_unspecified", "date_fraction", "date_offset_moves_day", "instant_observed"],
-            rule: "clients render their simulated clock in every admissible form (basic/extended, Z or any offset, ./, fraction of 0-12 digits) and the network corrupts the text (drop/insert/replace a character, out-of-range field, missing zone, HTTP-date); each text is delivered on either carrier signed by the reference signer for the reference instant (accept / format-error verdict, string to sign and scope date end to end), and the instant the library assigned plus the timestamp line of its string to sign are observed at nanosecond resolution through the `unstable` seam; distinct by (verdict class, carrier, length, form) Fractions reach 31 digits; corruptions include decimal digits that are not ASCII digits (sent as UTF-8), blanks in place of digits and malformed values longer than 256 bytes with non-ASCII characters.",
+            rule: "clients render their simulated clock in every admissible form (basic/extended, Z or any offset, ./, fraction of 0-12 digits) and the network corrupts the text (drop/insert/replace a character, out-of-range field, missing zone, HTTP-date); each text is delivered on either carrier signed by the reference signer for the reference instant (accept / format-error verdict, string to sign and scope date end to end), and the instant the library assigned plus the timestamp line of its string to sign are observed at nanosecond resolution through the `unstable` seam; distinct by (verdict class, carrier, length, form). Fractions reach 31 digits; corruptions include decimal digits that are not ASCII digits (sent as UTF-8), blanks in place of digits and malformed values longer than 256 bytes with non-ASCII characters.",
             quick_runs: 168000,
             thorough_runs: 2016000,
             real: REAL_COMMON,
